@@ -49,10 +49,25 @@ type gen struct {
 
 // scenario runs plan + apply on the implementation and records the cases.
 func (g *gen) scenario(tag string, cfg chanobs.Config, ops []chanobs.Op, dev []int) {
-	b, _ := chanobs.Replay(cfg, ops)
-	n := len(b.GetUplinkChannelIndices())
-	en := b.GetEnabledUplinkChannelIndices()
-	cus := b.GetCustomUplinkChannelIndices()
+	g.scenarioOn(tag, cfg, ops, dev, nil)
+}
+
+// scenarioOn: with live == nil the planner runs on a fresh instance brought to
+// the state by ops. With a live instance (a long-lived object that went through
+// the same calls ops AND through earlier planner calls) the planner and the
+// apply function run on that object, while the channel count and the enabled /
+// custom index lists the property is evaluated with are read from a control
+// object that reaches the same state without any earlier query; the plan of the
+// control object is compared with the live one here.
+func (g *gen) scenarioOn(tag string, cfg chanobs.Config, ops []chanobs.Op, dev []int, live band.Band) {
+	ctl, _ := chanobs.Replay(cfg, ops)
+	b := ctl
+	if live != nil {
+		b = live
+	}
+	n := len(ctl.GetUplinkChannelIndices())
+	en := ctl.GetEnabledUplinkChannelIndices()
+	cus := ctl.GetCustomUplinkChannelIndices()
 	var pls []lorawan.LinkADRReqPayload
 	kp := chanobs.Call(func() error { pls = b.GetLinkADRReqPayloadsForEnabledUplinkChannelIndices(dev); return nil })
 	var res []int
@@ -68,6 +83,20 @@ func (g *gen) scenario(tag string, cfg chanobs.Config, ops []chanobs.Op, dev []i
 	rp := map[string]interface{}{"api": "GetLinkADRReqPayloadsForEnabledUplinkChannelIndices + GetEnabledUplinkChannelIndicesForLinkADRReqPayloads",
 		"band": cfg.String(), "history": chanobs.OpsStrings(ops), "device_channels": dev, "channels": n, "enabled": en, "custom": cus,
 		"observed_payloads": payloadsJSON(pls), "observed_apply": fmt.Sprintf("%s %v", chanobs.KindName(ka), res), "scenario": tag}
+	if live != nil {
+		rp["object"] = "long-lived instance: the same calls, with a planner call after each prefix of them (earlier scenarios of this session); channels/enabled/custom read from a control instance without earlier queries"
+		var cpls []lorawan.LinkADRReqPayload
+		kc := chanobs.Call(func() error { cpls = ctl.GetLinkADRReqPayloadsForEnabledUplinkChannelIndices(dev); return nil })
+		if kc != kp || payloadsCoq(cpls) != payloadsCoq(pls) {
+			rp2 := map[string]interface{}{}
+			for k, v := range rp {
+				rp2[k] = v
+			}
+			rp2["control_payloads"] = payloadsJSON(cpls)
+			g.s.Fail(cases.GoFail{Key: fmt.Sprintf("plan-differs-from-control:%s:n=%d:%s:%s", cfg.String(), n, tag, id),
+				What: "the planner answers differently on a long-lived instance (queried before) than on a control instance brought to the same state by the same calls", Replay: rp2})
+		}
+	}
 	g.s.Add(cases.Case{
 		Term: fmt.Sprintf("CPlan %d%%nat %s %s %s %s %s %s %s", cfg.Index, chanobs.OpsCoq(ops), cq.Ints(dev), cq.Z(int64(n)),
 			cq.Ints(en), cq.Ints(cus), chanobs.Out(kp, payloadsCoq(pls)), chanobs.Out(ka, cq.Ints(res))),
@@ -103,6 +132,68 @@ func (g *gen) scenario(tag string, cfg chanobs.Config, ops []chanobs.Op, dev []i
 				Key:  fmt.Sprintf("enc:%s:n=%d:%s:%s", cfg.String(), n, tag, id),
 				Kind: "encode-" + tag, Nontrivial: true, Replay: rp})
 		}
+	}
+}
+
+// session: ONE band instance lives through the whole sequence
+// plan - call - plan - call - ...; every planner call is a CPlan case whose
+// history is the prefix of calls made so far, i.e. it is compared with the
+// (pure) model state at that position. script fixes the first calls / device
+// lists (corpus); the rest is random: AddChannel-heavy on bands that accept
+// extra channels, so that plan - AddChannel - plan with no Disable/Enable in
+// between occurs in every such session.
+func (g *gen) session(tag string, cfg chanobs.Config, steps int, script []chanobs.Op, devs [][]int) {
+	r := g.r
+	live := cfg.New()
+	extra := chanobs.SupportsExtra(cfg)
+	var ops []chanobs.Op
+	for i := 0; i <= steps; i++ {
+		ctl, _ := chanobs.Replay(cfg, ops)
+		n := len(ctl.GetUplinkChannelIndices())
+		var dev []int
+		kind := "scripted"
+		if i < len(devs) {
+			dev = devs[i]
+		} else {
+			en := ctl.GetEnabledUplinkChannelIndices()
+			switch r.Intn(6) {
+			case 0, 1: // the device already matches: nothing may be planned
+				kind, dev = "dev-eq-enabled", append([]int{}, en...)
+			case 2:
+				kind, dev = "dev-all", seq(0, n)
+			case 3: // matches except for the newest channel
+				kind = "dev-enabled-but-newest"
+				for _, c := range en {
+					if c != n-1 {
+						dev = append(dev, c)
+					}
+				}
+			case 4:
+				kind, dev = "dev-random", subset(r, seq(0, n), 1, 2)
+			default:
+				kind, dev = "dev-unsorted", shuffleDup(r, subset(r, seq(0, n), 2, 3))
+			}
+		}
+		g.scenarioOn(fmt.Sprintf("ses-%s-step%d-%s", tag, i, kind), cfg, ops, dev, live)
+		if i == steps {
+			break
+		}
+		var o chanobs.Op
+		switch {
+		case i < len(script):
+			o = script[i]
+		case extra && r.Intn(2) == 0:
+			ups := chanobs.Uplinks(ctl)
+			f := ups[0].Freq + uint32(100000*(1+r.Intn(60)))
+			if r.Intn(8) == 0 {
+				f = 0 // appended disabled
+			}
+			o = chanobs.Add(f, 0, 5)
+		default:
+			o = chanobs.RandOp(r, cfg, ctl, n, extra)
+		}
+		o.Apply(live)
+		ops = append(ops, o)
 	}
 }
 
@@ -279,7 +370,7 @@ func main() {
 	dir, seed, thorough := cases.Args()
 	r := cq.NewRNG(seed)
 	s := cases.New("C14", dir, "LW.Corr.C14",
-		"14 bands (x repeater x dwell) x histories of AddChannel/Disable/Enable (random incl. invalid indices; sub-band patterns for the 72/96-channel plans) x device channel lists (all, none, equal, standard, random, sparse, single, unsorted with duplicates, one-flip, out-of-range and negative); plan + apply run on the implementation; planned payloads through LinkADRReqPayload.MarshalBinary/UnmarshalBinary; apply on arbitrary payload lists. Non-trivial = the plan is non-empty (CPlan), any CEnc, a non-empty payload list (CApply); distinct = distinct printed case")
+		"14 bands (x repeater x dwell) x histories of AddChannel/Disable/Enable (random incl. invalid indices; sub-band patterns for the 72/96-channel plans) x device channel lists (all, none, equal, standard, random, sparse, single, unsorted with duplicates, one-flip, out-of-range and negative); plan + apply run on the implementation; planned payloads through LinkADRReqPayload.MarshalBinary/UnmarshalBinary; apply on arbitrary payload lists; sessions: one long-lived band object with planner calls interleaved with AddChannel/Disable/Enable (plan - AddChannel - plan - Disable - plan ...), every plan compared with the model after that prefix of calls and with a control object that reaches the same state without earlier queries. Non-trivial = the plan is non-empty (CPlan), any CEnc, a non-empty payload list (CApply); distinct = distinct printed case")
 	g := &gen{s: s, r: r, seenEnc: map[string]bool{}}
 	cfgs := chanobs.Configs()
 	byName := func(n band.Name) chanobs.Config {
@@ -316,6 +407,31 @@ func main() {
 	if thorough {
 		rounds = 30
 	}
+
+	// ---- sessions: planner calls interleaved with the band mutations on one
+	// long-lived object (own random stream: the cases below stay the same) ----
+	{
+		r0 := r
+		g.r = cq.NewRNG(seed ^ 0x5e5510c14)
+		// corpus (seeded-defect trial, notes/C14.md): plan, late AddChannel, plan
+		g.session("corpus-plan-add-plan", byName(band.EU868), 3,
+			[]chanobs.Op{chanobs.Add(867100000, 0, 5), chanobs.Add(867300000, 0, 5), chanobs.Disable(1)},
+			[][]int{{0, 1, 2}, {0, 1, 2, 3}, {0, 1, 2, 3, 4}, {0, 1, 2, 3, 4}})
+		for round := 0; round < rounds; round++ {
+			for _, name := range chanobs.Names {
+				cfg := cfgs[byName(name).Index+g.r.Intn(4)]
+				per := 2
+				if len(cfg.New().GetUplinkChannelIndices()) >= 64 {
+					per = 1
+				}
+				for k := 0; k < per; k++ {
+					g.session(fmt.Sprintf("r%d-%d", round, k), cfg, 5+g.r.Intn(4), nil, nil)
+				}
+			}
+		}
+		g.r = r0
+	}
+
 	for round := 0; round < rounds; round++ {
 		for _, name := range chanobs.Names {
 			cfg := pickCfg(name)
